@@ -44,8 +44,16 @@ class Extractor:
 
     def classify_local(self, bid, local):
         g = self.g
-        srcs, computed, seen = origins_enc(g, (bid, local))
+        # inside a helper that is being inlined at one call site, a value that comes in through a parameter has the
+        # class of the argument at that call site (not of the arguments at all call sites)
+        env = self._penv[-1] if getattr(self, "_penv", None) else None
+        stop = set(env) if env else None
+        srcs, computed, seen = origins_enc(g, (bid, local), stop)
         out = set()
+        if env:
+            for n in seen:
+                if n in env:
+                    out.update(x for x in env[n].split("|") if x and x != "computed")
         for s in srcs:
             if s[0] == "FIELD":
                 out.add(self.field_class(s[1], s[2]))
@@ -64,7 +72,10 @@ class Extractor:
         fw = self.stored_into(bid, {n for n in seen if n[0] == bid}) or self.stored_into(bid, set(seen))
         if fw:
             return "|".join(sorted(fw))
-        return "|".join(sorted(out)) or ("computed" if computed else "const")
+        # an element handed out by an iterator (`for x in it`, or the parameter of a closure given to `map`) is not
+        # told apart from a computed value: which of the two forms a loop takes is a matter of style
+        out = {x for x in out if x not in ("call:next", "call:next_back")}
+        return "|".join(sorted(out)) or "computed"
 
     def _agg_index(self):
         if getattr(self, "_aggs", None) is None:
@@ -108,8 +119,11 @@ class Extractor:
                         continue
                     if carrier(e.dst):
                         continue
-                    if e.op in (MOVE, "hof") or (e.op == "foreign" and LG._is_result_edge(g, e) and
-                                                 LG._callee_name(g, e) in R11.CARRIERS):
+                    once = (e.op == "foreign" and e.cs is not None and e.cs[0] == "out" and
+                            LG._callee_name(g, e) in ("then", "map", "and_then", "map_or", "map_or_else", "unwrap_or_else",
+                                                      "or_else", "ok_or_else"))     # what a run-once closure returns
+                    if once or e.op in (MOVE, "hof") or (e.op == "foreign" and LG._is_result_edge(g, e) and
+                                                         LG._callee_name(g, e) in R11.CARRIERS):
                         seen.add(e.dst)
                         nxt.add(e.dst)
             if not nxt:
@@ -173,6 +187,18 @@ class Extractor:
                     out.extend(self._items(c, fn, names, depth, stack))
                 out.extend(self._items(clo["body"], fn, names, depth, stack))
                 return out
+        if k == "mcall" and (e.get("def") or "").startswith(ONCE_RECEIVERS):
+            # `flag.then(|| ..)`, `opt.map(|x| ..)`, `res.and_then(..)`, `opt.unwrap_or_else(|| ..)`: the closure runs
+            # at most once, depending on the receiver - a branch, not a loop
+            out.extend(self._items(e["recv"], fn, names, depth, stack))
+            for c in e.get("args", []):
+                if isinstance(c, dict) and c.get("k") == "closure":
+                    inner = self._items(c["body"], fn, names, depth, stack)
+                    if inner:
+                        out.append(("branch", self._guard(e["recv"], fn), tuple(inner)))
+                else:
+                    out.extend(self._items(c, fn, names, depth, stack))
+            return out
         if k in ("call", "mcall"):
             for c in ([e["recv"]] if k == "mcall" else []) + ([e["f"]] if "f" in e else []) + e.get("args", []):
                 out.extend(self._items(c, fn, names, depth, stack))
@@ -279,8 +305,17 @@ class Extractor:
                         nxt.append(binds[n["name"]])
             front = nxt
             depth += 1
-        names -= {"is_some", "is_none", "unwrap", "as_ref", "clone", "commitment", "polynomial", "Some", "None"}
-        return tuple(sorted(names))
+        # what the guard is about, not how it is spelled: `if let Some(d) = degree_bound`, `match (degree_bound,
+        # shifted_comm)` and a helper that zips the two are the same test
+        fam = set()
+        for nm in names:
+            if "degree_bound" in nm or "shifted" in nm:
+                fam.add("degree-bound")
+            elif "hiding" in nm:
+                fam.add("hiding")
+            elif "well_formedness" in nm:
+                fam.add("well-formedness")
+        return tuple(sorted(fam))
 
     def _letter(self, e, fn):
         m = e["m"]
@@ -348,7 +383,26 @@ class Extractor:
             return [("sub", "unknown:" + name)]
         if depth >= MAX_DEPTH or target["id"] in stack:
             return [("sub", "rec:" + name)]
-        return self.schedule(target, depth + 1, stack + (target["id"],))
+        # classes of the arguments at this call site, bound to the callee's parameters
+        env = {}
+        mc2 = self.mir_call(fn.get("root") or fn["id"], e.get("sp"))
+        tb = self.f.bodies.get(target["id"])
+        if mc2 is not None and tb is not None:
+            cb, ci, ct = mc2
+            for j, a in enumerate(ct["args"]):
+                if j + 1 <= tb.arg_count and a["k"] in ("copy", "move"):
+                    env[(tb.id, j + 1)] = self.classify_local(cb, a["pl"]["l"])
+        if not hasattr(self, "_penv"):
+            self._penv = []
+        self._penv.append(env)
+        try:
+            return self.schedule(target, depth + 1, stack + (target["id"],))
+        finally:
+            self._penv.pop()
+
+
+ONCE_RECEIVERS = ("std::option::Option", "core::option::Option", "std::result::Result", "core::result::Result",
+                  "core::bool::", "std::bool::", "core::bool::<impl bool>")
 
 
 def pat_names(p, out=None):
@@ -371,8 +425,9 @@ def norm_role(r):
             "states": "state"}.get(r, r)
 
 
-def origins_enc(g, node):
-    """exact-flow origins where serialising a value into a byte buffer counts as carrying it."""
+def origins_enc(g, node, stop=None):
+    """exact-flow origins where serialising a value into a byte buffer counts as carrying it. `stop`: nodes at which
+    the walk ends (the parameters of a helper that is being inlined at one particular call site)."""
     from collections import deque
     rev = LG._rev(g)
     seen = {node}
@@ -382,6 +437,8 @@ def origins_enc(g, node):
     from ..flow import ALIAS
     while dq and len(seen) < 3000:
         n = dq.popleft()
+        if stop and n in stop:
+            continue
         for (a, e) in rev.get(n, ()):
             if e.kind == ALIAS and e.op == MOVE and e.cs is None and isinstance(a, tuple) and len(a) == 2:
                 # a = &mut n: what is written through the reference ends up in n
